@@ -481,8 +481,21 @@ func runC10(c *Ctx) {
 			okP = c.termOf(pv, cs.Common().Args[1]) == "SecureTrie#0.hashKey([]byte#0)" || c.termOf(pv, cs.Common().Args[1]) == "[]byte#0"
 		}
 		c.Ob("C10-R6", "SecureTrie.Prove proves the key it was given through the inner trie", c.FnPos(pv), okP, "")
+		// the hashed key is recomputed from the key bytes on every call (a memo keyed by the caller's slice would compare a
+		// recycled buffer with itself): every return of hashKey is the Keccak sum taken after writing exactly the key
+		hkFn := c.Fn("trie:(*SecureTrie).hashKey")
+		fhk := c.Facts(hkFn)
+		nhk := 0
+		for _, rs := range fhk.AllReturns() {
+			nhk++
+			res := fhk.tr.term(rs.State, rs.Ret.Results[0], 0)
+			_, wrote := hasLit(rs.State, mustRe(`^called:.*\.sha\.Write\(\[\]byte#0\)$`))
+			_, reset := hasLit(rs.State, mustRe(`^called:.*\.sha\.Reset\(\)$`))
+			c.Ob("C10-R6", "SecureTrie.hashKey returns Keccak(key), recomputed on every call", c.Position(rs.Ret.Pos()), wrote && reset && strings.Contains(res, ".sha.Sum("), "returns "+res)
+		}
+		c.Ob("C10-R6", "SecureTrie.hashKey return paths found", c.FnPos(hkFn), nhk >= 1, "")
 	})
-	c.Min("C10-R6", 4)
+	c.Min("C10-R6", 6)
 
 	c.Rule("C10-R7", "proofs record every node on the path and are content addressed", func() {
 		pv := c.Fn("trie:(*Trie).Prove")
@@ -550,6 +563,10 @@ func runC10(c *Ctx) {
 		c.Ob("C10-R7", "VerifyProof follows hash links starting at the root hash", c.FnPos(vp), okV, "")
 	})
 	c.Min("C10-R7", 5)
+
+	// "a trie reopened from a committed root reproduces it": the node cache in front of the database is emptied only
+	// after the nodes were written, children first - decided by C04's write-ordering rule, shared here
+	c.Borrow("C04", runC04, map[string]string{"C04-R2": "C10-R8"})
 }
 
 var c10SwitchExceptions = map[string]string{}
